@@ -1,7 +1,7 @@
 """C02 Filter selection follows RFC 9535 (existence, logic, scoping, iteration)."""
 from __future__ import annotations
 
-from vlib import diff
+from vlib import lib, diff
 from vlib.gen import queries as Q
 from vlib.hyp import drive, rng
 from vlib.ref import evaluate as ev
@@ -23,10 +23,21 @@ LEVEL_NOTE = "Trusted: vlib/ref evaluator, parser, I-Regexp matcher (self-test +
 NAMES = ["a", "b", "c", "d", "e"]
 
 
+
+def _with_interpreter_variants(specs, tier, n_small, extra=None):
+    """The same shard body in child interpreters started with other flags / environment variables."""
+    from vlib.runner import INTERPRETERS
+    base = dict(extra or {})
+    for name in INTERPRETERS:
+        s = dict(base, n=n_small if tier == "quick" else n_small * 6, interp=name)
+        specs.append(s)
+    return specs
+
+
 def plan(tier, seed):
     if tier == "quick":
-        return [{"n": 1000} for _ in range(16)]
-    return [{"n": 8000} for _ in range(16)]
+        return _with_interpreter_variants([{"n": 1000} for _ in range(16)], tier, 120)
+    return _with_interpreter_variants([{"n": 8000} for _ in range(16)], tier, 120)
 
 
 def examine(case):
@@ -72,6 +83,10 @@ def run_shard(spec, shard):
             case["exotic"] = r.randrange(1, 2**31)
         if r.random() < 0.08:
             case["alias"] = r.randrange(1, 2**31)
+        if r.random() < 0.05:
+            case["ambient"] = r.choice(lib.AMBIENTS[1:])
+        if r.random() < 0.08:
+            case["interrupted"] = r.randint(1, 90)
         e = ev.Evaluator()
         e.filter_stats = []
         res = e.query(ast, doc)
@@ -85,6 +100,9 @@ def run_shard(spec, shard):
             classes.add("non-empty")
         if Q.filter_depth(ast) >= 2:
             classes.add("nested-filter")
+        for k_ in ("interrupted", "ambient", "alias", "exotic"):
+            if k_ in case:
+                classes.add("variant:" + (k_ if k_ != "interrupted" else "first-application-interrupted-then-reapplied"))
         shard.case(key=(text, doc), nontrivial=nt, classes=classes, sample={"q": text, "doc": doc, "selected": len(res)})
         f = examine(case)
         if f:
